@@ -32,7 +32,7 @@ PROBES = ["split_one", "split_divisor", "split_nondivisor", "split_equal_n", "sp
           "join_fractional_offset", "join_same_second", "join_crosses_midnight", "join_feature_pruned",
           "join_adjacent_missing", "join_ancillary_input", "join_of_products", "join_5_inputs", "join_time_shifted",
           "join_frame_shifted", "join_logs_compared", "nonscalar_compared", "roundtrip_reproduced", "tz_not_utc",
-          "input_restamped_after_join", "ragged_input", "ragged_split_judged", "split_rerun_after_interruption", "split_rerun_refused"]
+          "input_restamped_after_join", "join_into_previously_used_path", "ragged_input", "ragged_split_judged", "split_rerun_after_interruption", "split_rerun_refused"]
 COMPONENTS = {
     "real": ["dclab.cli.split", "dclab.cli.join", "dclab export.hdf5 / RTDCWriter", "dclab RTDC_HDF5 reader incl. ancillary "
              "features and basins", "time.strptime/mktime of the C library under the run's TZ", "h5py/HDF5 on tmpfs"],
@@ -659,6 +659,15 @@ class World:
                 ctx.log("a", f"join {names} (no common feature) raised {type(e).__name__}")
             ctx.count("join_no_common_feature_unjudged")
             return None
+        if seeds.H(ctx.seed, "same_out", self.counter) % 4 == 0:
+            # the output path was already used by an earlier join in this session (here: of the first two inputs)
+            try:
+                with warnings.catch_warnings():
+                    warnings.simplefilter("ignore")
+                    cli.join(paths_in=[x["path"] for x in ins[:2]], path_out=path)
+                ctx.probe("join_into_previously_used_path")
+            except Exception as e:
+                ctx.log("a", f"preliminary join raised {type(e).__name__}")
         with ctx.sut("C09.join.raises", sig=dict(base_sig, what="join_raises"), fatal=False) as s:
             with warnings.catch_warnings():
                 warnings.simplefilter("ignore")
